@@ -108,6 +108,7 @@ func C05(c *Ctx) {
 		Profile: p, Grammars: c05Strata(), NGrammars: c.N(110, 1500),
 		FlagSets:  [][]string{{}, {"-optimize-parser"}},
 		InputsPer: c.N(90, 200), ExhaustLimit: c.N(150, 800), ExhaustLen: 6,
+		OptSets: []OptSet{{Name: "default"}, {Name: "initstate=4", Init: 4}, {Name: "initstate=8", Init: 8}},
 		Compare: CmpTrace | CmpState | CmpGLog | CmpVal | CmpEnd | CmpOK,
 		NonTrivial: func(m *ref.Result) bool {
 			return m.Backtracks >= 1 && len(m.Trace) >= 3 && m.KindsEval[gast.StateCode] >= 1
